@@ -56,7 +56,7 @@ def mut_calls(body, local):
     return out
 
 
-def _merge_fields(ctx, f, label, self_arg=1, dflt_arg=2):
+def _merge_fields(ctx, f, label, self_arg=1, dflt_arg=2, only=None):
     prog = ctx.prog
     o = Origins(f)
     aggs = [d for d in f.defs.get(0, []) if d[2] == "assign" and d[3]["k"] == "agg" and d[3]["agg"] == "adt"]
@@ -65,9 +65,14 @@ def _merge_fields(ctx, f, label, self_arg=1, dflt_arg=2):
     bb, si, _, rv = aggs[0]
     adt = prog.adt(strip_mods(rv["adt"]).split("::")[-1], crate="scrut-lib")
     all_fields = [x["name"] for x in adt["variants"][0]["fields"]]
-    ctx.check(sorted(rv["fields"]) == sorted(all_fields), label + ":all-fields", stmt_loc(f, bb, si),
-              "every field of the config is merged explicitly (no `..base`)", "fields %s are not merged field-wise" % sorted(set(all_fields) - set(rv["fields"])))
+    if only is None:
+        ctx.check(sorted(rv["fields"]) == sorted(all_fields), label + ":all-fields", stmt_loc(f, bb, si),
+                  "every field of the config is merged explicitly (no `..base`)", "fields %s are not merged field-wise" % sorted(set(all_fields) - set(rv["fields"])))
+    elif not set(only) <= set(rv["fields"]):
+        ctx.bad(label + ":fields", stmt_loc(f, bb, si), "field(s) %s are not merged field-wise" % sorted(set(only) - set(rv["fields"])))
     for fname, op in zip(rv["fields"], rv["ops"]):
+        if only is not None and fname not in only:
+            continue
         tree = peel(o.operand(op))
         where = stmt_loc(f, bb, si)
         key = label + ":" + fname
